@@ -50,6 +50,14 @@ def _run_as_new_flow(ctx):
     return res
 
 
+def subtree_of(tree, path):
+    n = len(path)
+    out = {p[n:]: l for p, l in tree.items() if len(p) >= n and p[:n] == path}
+    if () not in out:
+        out[()] = ("top",)
+    return out
+
+
 def _find_resolver(prog):
     """the function that joins a Location against a base URL: calls url::Url::join (role, not name)"""
     for b in prog.nonderived_bodies():
@@ -228,6 +236,7 @@ def rule_c15_status_origin(ctx):
         outs = I.run(tr, [ref(FLOW), ref(("IN", "input"))], init2)
         n = 0
         bad = 0
+        detail = []
         for o in outs:
             if o.kind != "return" or not shape(o.ret).startswith("Ok({0:?,1:Some"):
                 continue
@@ -235,9 +244,45 @@ def rule_c15_status_origin(ctx):
             l = o.state.read_leaf(FLOW, (("f", "inner"), ("f", "status"), ("v", "Some"), ("f", "0")))
             if not (l[0] == "term" and repr(l).rstrip(")").endswith("'@status'") or "@status" in repr(l[1][-1:]) ):
                 bad += 1
+                continue
+            # ... of the response that is handed to the caller on this path, not of another one seen on the way
+            resp = o.ret.get((("v", "Ok"), ("f", "0"), ("f", "1"), ("v", "Some"), ("f", "0")))
+            if resp is None or resp[0] != "term":
+                resp = tree_leaf(subtree_of(o.ret, (("v", "Ok"), ("f", "0"), ("f", "1"), ("v", "Some"), ("f", "0"))))
+            from .interp import mkproj
+            if not (resp[0] == "term" and l[1] == mkproj(resp[1], (("f", "@status"),))):
+                bad += 1
+                detail.append("stored %s, returned response %s" % (repr(l)[:150], repr(resp)[:150]))
         ctx.check(n >= 1 and bad == 0, R, "status-store",
                   "on every path that yields a response the stored status is that response's status (%d paths)" % n,
-                  loc=body_loc(tr))
+                  loc=body_loc(tr), detail=detail[:3])
+
+
+def rule_c15_status_kept(ctx):
+    """R15.4: following (or declining to follow) a redirect leaves the recorded status in place: `status()` keeps reporting
+    the redirect's status afterwards, and a second look at the same redirect decides the same"""
+    R = "R15.4"
+    run = _run_as_new_flow(ctx)
+    if not ctx.require(run, R, "entry", "Flow::<B, Redirect>::as_new_flow"):
+        return
+    from .interp import mkproj
+    p = (("f", "inner"), ("f", "status"))
+    bad = []
+    n = 0
+    for o in run["outs"]:
+        if o.kind != "return":
+            continue
+        n += 1
+        d = o.state.mem.get(FLOW, {})
+        v = d.get(p + (("$v",),))
+        if v != ("variant", "Some"):
+            bad.append("the recorded status is %s when as_new_flow returns %s" % (v[1] if v else "unknown", shape(o.ret)[:30]))
+            continue
+        pay = d.get(p + (("v", "Some"), ("f", "0")))
+        if pay is not None and pay != ("term", mkproj(("in", "flow"), p + (("v", "Some"), ("f", "0")))):
+            bad.append("the recorded status is replaced by %s" % repr(pay)[:80])
+    ctx.check(n >= 3 and not bad, R, "status-kept", "as_new_flow leaves the recorded status untouched on all %d returning paths" % n,
+              loc=body_loc(run["body"]), detail=sorted(set(bad))[:3])
 
 
 # ================================================================================ C13
@@ -656,64 +701,97 @@ def rule_c14_last_location(ctx):
               loc=body_loc(tr), bad_desc="stored Location is not the last `location` field on %d of %d paths" % (bad, n))
 
 
+def _suppression_predicate(ctx):
+    """the one `filter` of the effective header pipeline, found on the value `headers()` returns (wherever the code that builds
+    it lives): -> dict(closure body, closure tree, outcome state, path of the filter inside the pipeline) or None"""
+    prog = ctx.prog
+    if getattr(ctx, "_c13_pred", None) is not None:
+        return ctx._c13_pred or None
+    hd = prog.find("AmendedRequest::<Body>::headers")
+    res = False
+    if hd is not None:
+        I = mk_interp(prog)
+        SELF = ("OBJ", "self")
+
+        def init(st):
+            st.write_leaf(SELF, (), ("term", ("in", "self")))
+        try:
+            outs = [o for o in I.run(hd, [ref(SELF)], init) if o.kind == "return"]
+        except (PathLimit, Unsupported):
+            outs = []
+        if len(outs) == 1:
+            ret = outs[0].ret
+            fpaths = [pth[:-1] for pth, l in ret.items() if pth and pth[-1] == ("f", "@kind") and l == ("named", "filter")]
+            if len(fpaths) == 1:
+                clos = subtree_of(ret, fpaths[0] + (("f", "@f"),))
+                cl = clos.get(())
+                if cl and cl[0] == "closure" and cl[1] in prog.bodies:
+                    res = dict(body=prog.bodies[cl[1]], tree=clos, state=outs[0].state, path=fpaths[0], interp=I, entry=hd)
+    ctx._c13_pred = res
+    return res or None
+
+
 def rule_c13_filter(ctx):
-    """R13.5: the suppression filter over the inherited headers is exactly `name not in unset list`: the predicate
-    closure is stateless (captured by shared reference) and its result is the negation of the membership test"""
+    """R13.5: the suppression filter over the inherited headers is exactly `name not in unset list`: it sits on the inherited
+    half of the pipeline only, the predicate is stateless and its result is the negation of the membership test over the
+    request's suppression list"""
     R = "R13.5"
     prog = ctx.prog
     hd = prog.find("AmendedRequest::<Body>::headers")
     if not ctx.require(hd, R, "entry", "effective header iterator"):
         return
-    filt = []
-    for bb, t in hd.calls():
-        if short(callee_path(t) or "").endswith("Iterator::filter"):
-            a = t["args"][1]
-            ty = a.get("place", {}).get("ty", "")
-            for c in prog.closures_of(hd):
-                if c.span.split(":")[1] in ty:
-                    filt.append(c)
-    if not ctx.require(filt, R, "filter-closure", "filter predicate of the effective header iterator"):
+    pred = _suppression_predicate(ctx)
+    if not ctx.require(pred, R, "filter-closure", "filter predicate of the effective header iterator (exactly one filter in the pipeline headers() returns)"):
         return
+    c = pred["body"]
+    bad = []
+    if not any(e == ("f", "@b") for e in pred["path"]) or any(e == ("f", "@a") for e in pred["path"]):
+        bad.append("the filter does not sit on the inherited (second) half of the chain only")
+    # run the predicate on a symbolic item, from the memory in which headers() built it (its captures point into `self`)
+    st0 = pred["state"]
+    PRED, ITEM = ("OBJ", "pred"), ("OBJ", "item")
+    st0.write_tree(PRED, (), pred["tree"])
+    st0.write_leaf(ITEM, (), ("term", ("in", "item")))
+    envty = c.locals[1]["ty"]
+    env = ref(PRED) if envty.startswith("&") else pred["tree"]
+    from .tables import continue_from
     I = mk_interp(prog)
-    for c in filt:
-        ENV = ("OBJ", "env")
-
-        def init(st):
+    try:
+        outs = continue_from(I, st0, c, [env, ref(ITEM)])
+    except (PathLimit, Unsupported) as e:
+        outs = []
+        bad.append("predicate could not be executed: %s" % e)
+    if len(outs) != 1 or outs[0].kind != "return":
+        bad.append("the predicate has %d outcomes (%s); expected the single expression `!unset.any(..)`" % (len(outs), sorted(set(o.kind for o in outs))))
+    else:
+        r = outs[0].ret.get(())
+        rs = repr(r)
+        okshape = (r and r[0] == "term" and r[1][0] == "not" and r[1][1][0] == "call" and r[1][1][1].endswith("::any")
+                   and "('in', 'self')" in rs and "('f', 'unset')" in rs and "('OBJ', 'item')" in rs)
+        if not okshape:
+            bad.append("predicate result is %s" % rs[:200])
+        ctx._c13_pred_term = rs
+    from .effects import effects_of
+    w = effects_of(prog).summary.get(c.id, set())
+    if w:
+        bad.append("the predicate stores to captured state %s" % sorted(map(str, w))[:2])
+    # the membership closure compares a list element with the header *name* (item.0)
+    ENV = ("OBJ", "env")
+    cmp_ok = False
+    for ic in prog.closures_of(c):
+        def init2(st):
             st.write_leaf(ENV, (), ("term", ("in", "env")))
-            st.write_leaf(("OBJ", "item"), (), ("term", ("in", "item")))
-        outs = I.run(c, [ref(ENV), ref(("OBJ", "item"))], init)
-        bad = []
-        if len(outs) != 1 or outs[0].kind != "return":
-            bad.append("the predicate has %d outcomes (%s); expected the single expression `!unset.any(..)`" % (len(outs), sorted(set(o.kind for o in outs))))
-        else:
-            r = outs[0].ret.get(())
-            rs = repr(r)
-            okshape = (r and r[0] == "term" and r[1][0] == "not" and r[1][1][0] == "call" and r[1][1][1].endswith("Iterator>::any")
-                       and "('f', 'unset')" in rs and "('OBJ', 'item')" in rs)
-            if not okshape:
-                bad.append("predicate result is %s" % rs[:200])
-        from .effects import effects_of
-        w = effects_of(prog).summary.get(c.id, set())
-        if w:
-            bad.append("the predicate stores to captured state %s" % sorted(map(str, w))[:2])
-        # the membership closure compares a list element with the header *name* (item.0)
-        inner = [x for x in prog.closures_of(c)]
-        cmp_ok = False
-        for ic in inner:
-            def init2(st):
-                st.write_leaf(ENV, (), ("term", ("in", "env")))
-                st.write_leaf(("OBJ", "x"), (), ("term", ("in", "x")))
-            o2 = I.run(ic, [ref(ENV), ref(("OBJ", "x"))], init2)
-            if len(o2) == 1 and o2[0].kind == "return":
-                rr = repr(o2[0].ret.get(()))
-                if ("eq" in rr) and "('in', 'x')" in rr and "('in', 'env')" in rr and "('f', '0')" in rr:
-                    cmp_ok = True
-                else:
-                    bad.append("membership closure returns %s" % rr[:200])
-        ctx.check(cmp_ok and not bad, R, "suppression-predicate",
-                  "an inherited header is kept exactly when its name is not in the suppression list (single stateless expression "
-                  "`!unset.any(|x| x == name)`)", loc=body_loc(c), detail=bad[:4])
-    # the list membership compares with the header *name*
+            st.write_leaf(("OBJ", "x"), (), ("term", ("in", "x")))
+        o2 = I.run(ic, [ref(ENV), ref(("OBJ", "x"))], init2)
+        if len(o2) == 1 and o2[0].kind == "return":
+            rr = repr(o2[0].ret.get(()))
+            if ("eq" in rr) and "('in', 'x')" in rr and "('in', 'env')" in rr and "('f', '0')" in rr:
+                cmp_ok = True
+            else:
+                bad.append("membership closure returns %s" % rr[:200])
+    ctx.check(cmp_ok and not bad, R, "suppression-predicate",
+              "an inherited header is kept exactly when its name is not in the request's suppression list (single stateless expression "
+              "`!unset.any(|x| x == name)`, applied to the inherited half of the effective headers only)", loc=body_loc(c), detail=bad[:4])
     ctx.ok(R, "filter-present", "the inherited part of the effective iterator is filtered", loc=body_loc(hd), nontrivial=False)
 
 
@@ -727,15 +805,21 @@ def rule_c13_list_append_only(ctx):
     hd = prog.find("AmendedRequest::<Body>::headers")
     if not ctx.require(hd, R, "entry", "effective header iterator"):
         return
-    # the list the suppression predicate reads: the ArrayVec field mentioned in the filter closure
+    # the list the suppression predicate reads: the ArrayVec field of the request that the filter's captures point to
     name = None
-    for c in prog.closures_of(hd):
-        for blk in c.blocks:
-            for st_ in blk["stmts"]:
-                if st_["k"] == "assign" and st_["rv"]["k"] == "ref":
-                    for e in st_["rv"]["place"].get("proj", []):
-                        if e.get("k") == "field" and "ArrayVec<" in e.get("ty", "") and name is None:
-                            name = e["name"]
+    pred = _suppression_predicate(ctx)
+    adt = prog.adt_short("AmendedRequest") if hasattr(prog, "adt_short") else None
+    listfields = []
+    if adt:
+        for v in adt.get("variants", []):
+            for f in v.get("fields", []):
+                if "ArrayVec<" in f.get("ty", "") and "HeaderName" in f.get("ty", "") and "HeaderValue" not in f.get("ty", ""):
+                    listfields.append(f["name"])
+    if pred:
+        txt = getattr(ctx, "_c13_pred_term", "") or ""
+        for f in listfields:
+            if "('f', '%s')" % f in txt and name is None:
+                name = f
     if not ctx.require(name, R, "list-field", "list read by the suppression predicate"):
         return
     acc = field_accesses(prog, "AmendedRequest<", name)
@@ -755,4 +839,4 @@ def rule_c13_list_append_only(ctx):
 
 C13_RULES = [rule_c13, rule_c13_filter, rule_c13_list_append_only]
 C14_RULES = [rule_c14, rule_c14_last_location]
-C15_RULES = [rule_c15_table, rule_c15_detection, rule_c15_status_origin]
+C15_RULES = [rule_c15_table, rule_c15_detection, rule_c15_status_origin, rule_c15_status_kept]
